@@ -196,6 +196,103 @@ def run_ambig(root, repo, cfg, lalrpop, work, only=None):
     return n, fails
 
 
+# ---------------------------------------------------------------------------------------------------------------
+# random small grammars (seeded): widen the grammar shapes U5 sees beyond the hand-written ones
+# ---------------------------------------------------------------------------------------------------------------
+RND_TERMS = [("a", "Tok::A", 6), ("b", "Tok::B", 7), ("c", "Tok::C", 8), ("d", "Tok::D", 9), ("e", "Tok::E", 10), ("p", "Tok::P", 11)]
+RND_HEADER = """use crate::common::{Tok, MyErr};
+@ATTRS@
+grammar;
+extern {
+    type Location = usize;
+    type Error = MyErr;
+    enum Tok { "a" => Tok::A, "b" => Tok::B, "c" => Tok::C, "d" => Tok::D, "e" => Tok::E, "p" => Tok::P }
+}
+"""
+
+
+def _random_grammar(rng):
+    nn = rng.randint(2, 4)
+    nt = rng.randint(3, 5)
+    prods = []
+    for lhs in range(nn):
+        for _ in range(rng.randint(1, 3)):
+            rhs = []
+            for _ in range(rng.choice([0, 1, 1, 2, 2, 2, 3, 3])):
+                if rng.random() < 0.45:
+                    rhs.append(("N", rng.randrange(nn)))
+                else:
+                    rhs.append(("T", rng.randrange(nt)))
+            if (lhs, rhs) not in prods:
+                prods.append((lhs, rhs))
+    # productive / reachable
+    productive = set()
+    changed = True
+    while changed:
+        changed = False
+        for (l, r) in prods:
+            if l not in productive and all(k == "T" or v in productive for (k, v) in r):
+                productive.add(l)
+                changed = True
+    reach = {0}
+    changed = True
+    while changed:
+        changed = False
+        for (l, r) in prods:
+            if l in reach:
+                for (k, v) in r:
+                    if k == "N" and v not in reach:
+                        reach.add(v)
+                        changed = True
+    if productive != set(range(nn)) or reach != set(range(nn)):
+        return None
+    used = sorted(set(v for (_, r) in prods for (k, v) in r if k == "T"))
+    if len(used) < 2:
+        return None
+    return nn, prods, used
+
+
+def random_grammars(seed, want, lalrpop, gdir, env):
+    """-> list of dict(name, prods, terms) for grammars the DEFAULT configuration of lalrpop accepts"""
+    import random
+    rng = random.Random(1000003 * (seed + 1))
+    out = []
+    tries = 0
+    while len(out) < want and tries < want * 40:
+        tries += 1
+        g = _random_grammar(rng)
+        if g is None:
+            continue
+        nn, prods, used = g
+        body = []
+        for n in range(nn):
+            alts = []
+            for (l, r) in prods:
+                if l == n:
+                    alts.append("    " + " ".join(('"%s"' % RND_TERMS[v][0]) if k == "T" else ("N%d" % v) for (k, v) in r) + " => (),")
+            body.append("%sN%d: () = {\n%s\n};" % ("pub " if n == 0 else "", n, "\n".join(alts)))
+        text = RND_HEADER + "\n".join(body) + "\n"
+        name = "rnd%d" % len(out)
+        ok = True
+        for (suffix, attrs) in (("lane", ""), ("ascent", "#[recursive_ascent]")):
+            src = os.path.join(gdir, "%s_%s.lalrpop" % (name, suffix))
+            open(src, "w").write(text.replace("@ATTRS@", attrs))
+            q = subprocess.run([lalrpop, "--force", "--level", "quiet", src], cwd=gdir, env=env, capture_output=True, text=True, timeout=120)
+            if q.returncode != 0 or not os.path.exists(src[:-8] + ".rs"):
+                ok = False
+                break
+        if not ok:
+            for suffix in ("lane", "ascent"):
+                for ext in (".lalrpop", ".rs"):
+                    try:
+                        os.remove(os.path.join(gdir, "%s_%s%s" % (name, suffix, ext)))
+                    except OSError:
+                        pass
+            continue
+        out.append(dict(name=name, prods=prods, terms=used, text=text))
+    return out
+
+
 def run_gen_unit(root, repo, us, prop, tier, seed, work):
     r = dict(unit="native/gen", kind="native", status="undecided", reason="", failed=[], obligations=0, discharged=0,
              functions=["generated <X>Parser::parse for 16 grammar variants (lane table / LALR / LR(1); table-driven / recursive ascent)"],
